@@ -257,7 +257,8 @@ class HistoryRunner:
 				self.bump('faults_fired', 'torn-write(truncated %s file%s)' % (op.get('cls'), ', zero-filled' if op.get('zeros') else ''))
 				self.bump('truncation_offsets', '%s:%s' % (op.get('cls'), 'first-8' if off < 8 else 'last-8' if off >= len(data) - 8 else 'interior'))
 				self.changed_since_obs = True
-				self.log.append(['truncate', file_class(victim), off, len(data)])
+				# (the pickled parser's bytes depend on the interpreter's hash seed: its sizes stay out of the log)
+				self.log.append(['truncate', file_class(victim), list(op['off'])] + ([off, len(data)] if op.get('cls') != 'parser' else []))
 			else:
 				self.bump('probes', 'truncate: no such cache file')
 			self.kinds_seq.append('truncate')
@@ -293,7 +294,7 @@ class HistoryRunner:
 					self.tainted.add(victim)
 					self.bump('faults_fired', 'torn-write(%s file cut at a record boundary)' % op.get('cls'))
 					self.context_note = {'truncated': victim, 'offset': off, 'size': len(data)}
-					self.log.append(['sweep', file_class(victim), off, len(data)])
+					self.log.append(['sweep', file_class(victim)] + ([off, len(data)] if op.get('cls') != 'parser' else []))
 					self.run_once(i, {'op': 'run', 'enabled': True}, None)
 				self.context_note = {}
 				self.proj.sc.restore(snap)
